@@ -35,6 +35,7 @@ TopByte(b, o) == IF IsLE(b) THEN b[o+4] ELSE b[o+1]
 Pad8(n) == (8 - (n % 8)) % 8
 MAXMSG == 134217728
 RealTotal(b) == 16 + U32(b, 12) + Pad8(U32(b, 12)) + U32(b, 4)
+RealSkip(b) == b[2] \notin 1..4          \* message type byte: 1..4 are the types of this version of the specification
 RealTooLarge(b) == \/ TopByte(b, 4) >= 8 \/ TopByte(b, 12) >= 8
                    \/ RealTotal(b) > MAXMSG
 
@@ -78,9 +79,11 @@ Track(guard, A, e) ==
 DoReset(e) ==
   /\ rs' = l /\ hsRem' = e.hs_len /\ dl' = <<>> /\ cons' = 0 /\ hsObs' = 0 /\ errs' = 0 /\ nsc' = nsc + 1
   /\ bad' = FALSE
-  /\ sent' = [i \in 1..Len(e.msgs) |->
-               [bytes |-> e.msgs[i],
-                fds |-> AttIds(e.att, StartOf(e.msgs, i) + 1, StartOf(e.msgs, i) + Len(e.msgs[i]))]]
+  \* (messages of unknown type are not delivered: they and their fds are skipped)
+  /\ sent' = SelectSeq([i \in 1..Len(e.msgs) |->
+                         [bytes |-> e.msgs[i],
+                          fds |-> AttIds(e.att, StartOf(e.msgs, i) + 1, StartOf(e.msgs, i) + Len(e.msgs[i]))]],
+                       LAMBDA m : ~RealSkip(m.bytes))
   /\ stream' = Flat(e.msgs) \o e.tail
   /\ att' = e.att
   /\ eof' = e.eof
